@@ -54,6 +54,7 @@ from .type_evaluation import (
     EvalContext,
     Evaluator,
     Position,
+    UserRaisedError,
 )
 from .typevar import resolve_bounds_map
 from .value import (
@@ -1359,14 +1360,27 @@ class Signature:
                     varmap, positions, ctx.can_assign_ctx, typevar_values
                 )
                 return_value, errors = self.evaluator.evaluate(eval_ctx)
+                errors_by_node: dict[Optional[ast.AST], list[UserRaisedError]] = {}
                 for error in errors:
                     had_error = True
                     error_node = None
                     if error.argument is not None:
                         composite = bound_args[error.argument][1]
                         error_node = composite.node
+                    errors_by_node.setdefault(error_node, []).append(error)
+                # Only one error per node and error code is ever reported, so
+                # errors that point at the same node are shown together.
+                for error_node, node_errors in errors_by_node.items():
+                    details = [
+                        detail
+                        for detail in (error.get_detail() for error in node_errors)
+                        if detail is not None
+                    ]
                     self.show_call_error(
-                        error.message, ctx, node=error_node, detail=error.get_detail()
+                        "; ".join(error.message for error in node_errors),
+                        ctx,
+                        node=error_node,
+                        detail="\n".join(details) if details else None,
                     )
 
         if self.allow_call:
